@@ -309,9 +309,13 @@ def run_harness(meta, prop_id, keep=False):
             left = ['?']
         if left and not (meta.get('unwind') or meta.get('bounded')):
             res['notes'].append('loop contract annotated but loops remain un-contracted: %s' % left[:4])
-            res['status'] = 'error'
-            res['total_s'] = time.time() - t0
-            return res
+            # cbmc terminated, so every remaining loop was unrolled to completion: a failed obligation is a real
+            # path of the code (e.g. a change made the loop body leave on its first pass).  Without a failure the
+            # run is not accepted as a proof "for any number of iterations": undecided.
+            if not any(f['cls'] in ('postcondition', 'assertion', 'precondition') for f in res['failed']):
+                res['status'] = 'error'
+                res['total_s'] = time.time() - t0
+                return res
     res['status'] = 'pass' if not res['failed'] else 'fail'
     if res['failed']:
         # get a trace for the first deciding failure
